@@ -24,6 +24,7 @@ import Restful.Lemmas.StateShape
 import Restful.Lemmas.TieCors
 import Restful.Lemmas.TieImpAllowed
 import Restful.Lemmas.TieImpFilters
+import Restful.Lemmas.TieImpFiltersDefault
 namespace Restful
 namespace Props
 open Str Cors
@@ -492,3 +493,4 @@ end Restful
 -- translation (tools/goimp, Gen/Imp.lean, regenerated on every run):
 -- also: Restful.TieImp.compute_allowed_methods
 -- also: Restful.TieImp.cors_filter
+-- also: Restful.TieImp.cors_filter_default_container
